@@ -1,0 +1,14 @@
+//go:build verif
+
+// Contracts for package route, checked by /verif/engine (govc). Comment-only.
+
+package route
+
+//@ func (net Network) ShortestRoute
+//@   prop C19
+//@   mode real
+//@   nosafety
+//@   opt noframe=edge,node,Network
+//@   modifies nothing
+//@   loop 1 `for i := 0; i < len(nodes)-1; i++`
+//@     invariant [count] 0 <= i
